@@ -215,7 +215,15 @@ func genOne(r *rand.Rand, kind string, big bool) *producedMsg {
 		keys = append(keys, k)
 	}
 	prot, unprot := genHdrTok(r, 3), genHdrTok(r, 3)
-	return buildProduce(r, kind, mode, payloadTok(r, mode, big), prot, unprot, extTok(r), keys)
+	payload := payloadTok(r, mode, big)
+	if big && (kind == "encrypt0" || kind == "encrypt") {
+		// AES-CCM-16-*: plaintexts at the 2^16 limit, where ciphertext = plaintext + tag crosses it
+		alg := []int{10, 11, 30, 31}[r.Intn(4)]
+		keys = []msgKey{genMsgKey(r, alg, false)}
+		mode = "raw"
+		payload = hx(randBytes(r, []int{65519, 65520, 65527, 65528, 65534, 65535, 65535, 65536}[r.Intn(8)]))
+	}
+	return buildProduce(r, kind, mode, payload, prot, unprot, extTok(r), keys)
 }
 
 func genMsg(r *rand.Rand, n int, flavour string) []string {
@@ -228,7 +236,13 @@ func genMsg(r *rand.Rand, n int, flavour string) []string {
 		case "tamper-enc", "nonce":
 			kind = kindsAll[4+r.Intn(2)]
 		}
-		p := genOne(r, kind, i%30 == 0)
+		p := genOne(r, kind, i%30 == 0 || (flavour == "roundtrip" && i%10 == 0))
+		if flavour == "tamper-enc" && i%20 == 7 {
+			// external data beyond 0xff00 octets (the long form of the AEAD's AAD length) under AES-CCM, small message
+			k := genMsgKey(r, ccmAlgs[r.Intn(len(ccmAlgs))], false)
+			mode := "raw"
+			p = buildProduce(r, kind, mode, hx(randBytes(r, 1+r.Intn(20))), "nil", "nil", hx(randBytes(r, []int{65280, 65281, 66000}[r.Intn(3)])), []msgKey{k})
+		}
 		out = append(out, p.line)
 		if !p.ok || p.data == nil {
 			continue
@@ -276,7 +290,7 @@ func tamperParts(r *rand.Rand, p *producedMsg) (kind string, data []byte, ext st
 	data = append([]byte{}, p.data...)
 	ext = p.ext
 	kind = p.kind
-	switch r.Intn(12) {
+	switch r.Intn(13) {
 	case 0, 1: // bit flip anywhere
 		i := r.Intn(len(data))
 		data[i] ^= 1 << uint(r.Intn(8))
@@ -302,6 +316,15 @@ func tamperParts(r *rand.Rand, p *producedMsg) (kind string, data []byte, ext st
 		data = retag(data, kind)
 	case 8, 9: // the authenticator (signature / tag / ciphertext) shortened, emptied or lengthened, well-formed CBOR kept
 		data = resizeAuth(r, data, p.kind)
+	case 11: // a label inside the body protected bucket changed (the value, e.g. the alg, stays): {1: alg} -> {10: alg}
+		_, spans := topMembers(data)
+		if len(spans) > 0 {
+			if c, ok := bstrContent(data[spans[0][0]:spans[0][1]]); ok && len(c) >= 2 && c[0] >= 0xa1 && c[0] <= 0xb7 && c[1] < 0x18 {
+				nc := append([]byte{}, c...)
+				nc[1] = byte([]int{10, 9, 11, 2, 7}[r.Intn(5)])
+				data = replaceSpan(data, spans[0], bstrItem(nc))
+			}
+		}
 	case 10: // COSE_Sign: a signer entry forged, duplicated, dropped or reordered
 		if p.kind == "sign" {
 			data = tamperSigners(r, data)
